@@ -273,8 +273,8 @@ def Q(inp, U):
     Returns:
         Q operator result.
     """
-    mu, V = xp.linalg.eig(U)
-    mu = mu[:, None]
+    mu, V = xp.linalg.eigh(U)
+    mu = xp.astype(mu, complex)[:, None]
     denom = xp.sqrt(mu) @ xp.ones((1, len(mu)), dtype=complex)
     denom2 = denom + denom.conj().T
     # return V @ ((V.conj().T @ inp @ V) / denom2) @ V.conj().T
